@@ -48,6 +48,16 @@ CLAIMED = {
              'CPython int()/float() raise only ValueError on str (OverflowError of int/1000 is modelled), re classes.',
         technique='Coq proof over executable Gallina model (result monad) + differential correspondence + direct totality oracle',
         ref='7/C14'),
+    'C19': dict(
+        text='21 theorems over the model of the push-gateway URL construction and of the Pushgateway-side decoder (model/Gateway.v): '
+             'UTF-8, URL-safe base64 and percent-encoding are inverted by their decoders for ALL byte strings; the URL of every job and '
+             'grouping key decodes (form-style, path-style and Go-order decoders) to job followed by the sorted labels; injectivity; '
+             'method/body/headers/timeout; gateway spelling normalisation. Tie: the model URL must equal the implementation URL exactly '
+             'on ~10k (quick) / ~250k (thorough) cases through an injected recording handler; direct oracle = an independent Go-order decoder.',
+        note='Trusted: Coq kernel, extraction/driver, urlparse scheme detection (a boolean input of the model), str() of non-string values, '
+             'generate_latest, the Pushgateway decoding rules as written in the decoder model.',
+        technique='Coq proof over executable Gallina model (encoder + decoder) + exact-URL differential correspondence + independent decoder oracle',
+        ref='7/C19'),
 }
 
 ALL = ['C%02d' % i for i in range(1, 20)]
